@@ -675,7 +675,7 @@ func genCase(c *runner, r *RNG, id string, nops int, mix string) {
 		maxBody = int(c.s.cfg.bodyMax) - 8
 	}
 	ngroupKeys := idx
-	if mix == "safe" {
+	if mix == "safe" || mix == "gcmate" {
 		// class SafeR: every colliding key is written and then read once (the reads enter them into the collision table)
 		for _, g := range groups {
 			for _, k := range g {
@@ -703,6 +703,24 @@ func genCase(c *runner, r *RNG, id string, nops int, mix string) {
 		ts += uint32(r.Intn(3))
 		p := r.Intn(100)
 		alive := true
+		if mix == "gcmate" {
+			// GC over keys the collision table knows: sets with automatic revision (the slot of the hash moves from
+			// mate to mate, the versions of the mates drift apart), flushes (rotation), passes with and without merge
+			switch {
+			case p < 45:
+				p = 0
+			case p < 55:
+				p = 50 // get
+			case p < 70:
+				p = 75 // flush
+			case p < 75:
+				p = 80 // hint dump
+			case p < 78:
+				p = 35 // delete
+			default:
+				p = 99 // GC
+			}
+		}
 		switch {
 		case p < 30:
 			v := genValue(r)
@@ -710,7 +728,7 @@ func genCase(c *runner, r *RNG, id string, nops int, mix string) {
 				v = v[:maxBody]
 			}
 			rev := 0
-			if r.Chance(12) && mix != "safe" {
+			if r.Chance(12) && mix != "safe" && mix != "gcmate" {
 				rev = []int{1, 2, 3, 5, 10, 1000}[r.Intn(6)]
 			}
 			flag := []uint32{0, 1, 0x204}[r.Intn(3)]
@@ -928,7 +946,7 @@ func main() {
 	ops := flag.Int("ops", 60, "operations per case (upper bound of the random length)")
 	out := flag.String("out", "", "")
 	rep := flag.String("replay", "", "")
-	mix := flag.String("mix", "full", "client | restart | full | nomerge | safe")
+	mix := flag.String("mix", "full", "client | restart | full | nomerge | safe | gcmate")
 	work := flag.String("work", "", "")
 	flag.Parse()
 	store.VerifHook = hook
